@@ -269,6 +269,30 @@ theorem C11_unfixed_field_read_location_ignored :
     analyze current wFieldRead.g prm0 wFieldRead.rs = [] := by
   constructor <;> decide
 
+/-- `_propagate_from_state` wrote the id of a containing STATE (STATE_INCLUSION predecessor) into
+the SYMBOL table: the unrelated variable `x` whose symbol id equals that state id became tainted and
+`sink(x)` was reported; the repaired code writes SYMBOL predecessors only. -/
+theorem C11_unfixed_state_id_tagged_as_symbol :
+    analyze current wStateId.g (wStateId.frozenPrm prm0) wStateId.rs
+      = [{ src := 1, sink := 4, vuln := some "v" }] ∧
+    analyze current wStateId.g prm0 wStateId.rs = [] := by
+  constructor <;> decide
+
+/-- since that repair the SYMBOL table only receives ids of SYMBOL nodes and of the symbols a
+propagating statement defines: every symbol-table consequence of a dequeued node names such a node. -/
+theorem C11_symbol_table_holds_symbols (g : Graph) (prm : Params) (hs : prm.stateUpSymOnly = true)
+    {u : Nat} {i : Int} (h : Conseq g prm u (true, i)) :
+    ∃ x, g.nid x = i ∧ (g.kindOf x = K_SYMBOL ∨ ∃ e ∈ g.outE u, e.etype = E_DEFINED ∧ e.peer = x) := by
+  generalize hl : ((true, i) : Loc) = l at h
+  cases h with
+  | symState _ _ _ => simp [stLoc] at hl
+  | symFlow _ _ _ hpk => exact ⟨_, by simpa [symLoc] using (congrArg Prod.snd hl).symm, Or.inl hpk⟩
+  | stateUp _ _ _ hk => exact ⟨_, by simpa [symLoc] using (congrArg Prod.snd hl).symm, Or.inl (hk hs)⟩
+  | stateDown _ _ _ _ => simp [stLoc] at hl
+  | stmtDef _ _ he het =>
+    exact ⟨_, by simpa [symLoc] using (congrArg Prod.snd hl).symm, Or.inr ⟨_, he, het, rfl⟩⟩
+  | recv _ _ _ _ _ _ hpk => exact ⟨_, by simpa [symLoc] using (congrArg Prod.snd hl).symm, Or.inl hpk⟩
+
 /-- with a stale `target_pos` the sink tag is not monotone in the rule set: the frozen model
 answers an error where the smaller rule set answers a flow. -/
 theorem C11_unfixed_not_monotone :
